@@ -84,53 +84,59 @@ aws_stream_init(struct aws_stream * S)
 	S->n = 0;
 }
 
+/*
+ * NOTE for all writers below: tokens are addressed as S->t[j] with j a local copy of the (constant) index, never
+ * through a pointer to the element.  A write through `struct aws_tok * t = &S->t[j]` is dereferenced by CBMC as
+ * "some element of S->t" and expands into a guarded update of every field of all AWS_TKMAX elements (measured:
+ * 75 M propositional variables for one front end instead of < 1 M).
+ */
 /* append one byte of text (opens a TEXT run when the last token is not one) */
 static inline void
 aws_stream_c(struct aws_stream * S, uint8_t c)
 {
-	struct aws_tok * t;
+	size_t j;
 
 	if (S->n == 0 || S->t[S->n - 1].kind != AWS_TK_TEXT) {
 		AWS_ST_BOUND(S->n < AWS_TKMAX, "more than AWS_TKMAX tokens");
-		t = &S->t[S->n];
-		t->kind = AWS_TK_TEXT;
-		t->id = 0;
-		t->ival = 0;
-		t->len = 0;
-		S->n++;
+		j = S->n;
+		S->t[j].kind = AWS_TK_TEXT;
+		S->t[j].id = 0;
+		S->t[j].ival = 0;
+		S->t[j].len = 0;
+		S->n = j + 1;
 	}
-	t = &S->t[S->n - 1];
-	AWS_ST_BOUND(t->len < AWS_TXMAX, "TEXT run longer than AWS_TXMAX");
-	t->text[t->len] = c;
-	t->len++;
+	j = S->n - 1;
+	AWS_ST_BOUND(S->t[j].len < AWS_TXMAX, "TEXT run longer than AWS_TXMAX");
+	S->t[j].text[S->t[j].len] = c;
+	S->t[j].len = S->t[j].len + 1;
 }
 
 static inline void
 aws_stream_ref(struct aws_stream * S, int id)
 {
-	struct aws_tok * t;
+	size_t j;
 
 	AWS_ST_BOUND(S->n < AWS_TKMAX, "more than AWS_TKMAX tokens");
-	t = &S->t[S->n];
-	t->kind = AWS_TK_REF;
-	t->id = id;
-	t->ival = 0;
-	t->len = 0;
-	S->n++;
+	j = S->n;
+	S->t[j].kind = AWS_TK_REF;
+	S->t[j].id = id;
+	S->t[j].ival = 0;
+	S->t[j].len = 0;
+	S->n = j + 1;
 }
 
 static inline void
 aws_stream_int(struct aws_stream * S, int v)
 {
-	struct aws_tok * t;
+	size_t j;
 
 	AWS_ST_BOUND(S->n < AWS_TKMAX, "more than AWS_TKMAX tokens");
-	t = &S->t[S->n];
-	t->kind = AWS_TK_INT;
-	t->id = 0;
-	t->ival = v;
-	t->len = 0;
-	S->n++;
+	j = S->n;
+	S->t[j].kind = AWS_TK_INT;
+	S->t[j].id = 0;
+	S->t[j].ival = v;
+	S->t[j].len = 0;
+	S->n = j + 1;
 }
 
 /* `n` bytes of fixed-length text from memory */
